@@ -16,7 +16,7 @@ HARNESS_I = ["vcr/issuer/zz_verif_c11i_test.go"]
 HARNESSES = [(PKG, HARNESS, "c11"), (PKG_V, HARNESS_V, "c11v"), (PKG_A, HARNESS_A, "c11a"), (PKG_I, HARNESS_I, "c11i")]
 
 REQUIRED = ["entries_injective", "einv_fresh", "bit_set_get", "bit_total", "served_list_signed_and_fresh", "list_signed_in_same_transaction",
-            "set_monotone", "served_bit_never_cleared", "revoke_idempotent", "revoked_forever_network", "revocation_before_credential",
+            "sign_failure_is_atomic", "fact_revoke_credential_statements", "set_monotone", "served_bit_never_cleared", "revoke_idempotent", "revoked_forever_network", "revocation_before_credential",
             "revocation_event_stored_or_retried", "redelivered_revocation_effective", "fact_ambassador_transient_errors",
             "first_revocation_entry_is_first_relevant", "issuer_revoke_status_list_effective", "issuer_network_revocation_accepted",
             "fact_issuer_ambassador_store_sites", "issuer_only", "stored_revocations_accepted", "network_revocation_is_by_issuer", "forged_revocations_rejected",
@@ -116,6 +116,8 @@ def oracle(ctx, ops, impl, max_index, min_left_min):
                 if int(op["idx"]) in revoked.get((node, name), set()):
                     report("C11:revoke-accepted-twice", f"{name}#{op['idx']}", i)
                 revoked.setdefault((node, name), set()).add(int(op["idx"]))
+            elif line == "revoke err:sign":
+                stats["revoke-with-failing-signer"] += 1
             elif line == "revoke revoked":
                 stats["re-revocations"] += 1
                 if int(op["idx"]) not in revoked.get((node, name), set()):
